@@ -160,10 +160,15 @@ theorem parsePreparedMetadata_ok (v : Nat) (pk : List Nat) (m : Meta) (r : Frame
   · have hv' : (decide (v ≥ 4)) = true := by simpa using hv
     simp only [hv, if_true, List.append_assoc]
     rw [bind_bind_ok (readInt_eInt_nat _ _ hpk)]
-    have hms : makeSlice (pk.length : Int) = fun buf => .ok ((), buf) := by
-      funext buf; simp [makeSlice]
+    have hpklen : 2 * pk.length ≤ (pk.flatMap eShort).length := by
+      clear hpk hpks
+      induction pk with
+      | nil => simp
+      | cons x xs ih => simp [List.flatMap_cons, eShort] at *; omega
     simp only [Int.toNat_natCast]
-    rw [bind_bind_ok (f := fun _ => _) (show makeSlice (pk.length : Int) _ = .ok ((), _) by rw [hms])]
+    rw [bind_bind_ok (f := fun _ => _) (show checkPkeyCount (pk.length : Int) _ = .ok ((), _) by
+      unfold checkPkeyCount
+      rw [if_neg (by omega), if_neg (by simp only [Int.toNat_natCast, List.length_append]; omega)])]
     rw [bind_bind_ok (readN_flatMap_id readShort eShort pk _
       (fun x hx r' => readShort_eShort x r' (by simpa [isShort] using List.all_eq_true.mp hpks x hx)))]
     rw [bind_ok (pure_apply _ _), bind_ok h]
